@@ -56,7 +56,9 @@ FirstA(attrs, ln, i) == IF i > Len(attrs) THEN 0 ELSE IF attrs[i][1] = ln THEN i
 SetAttr(attrs, n, v) == LET ln == LowerSeq(n)  i == FirstA(attrs, ln, 1) IN
   IF i = 0 THEN Append(attrs, <<ln, v>>) ELSE [attrs EXCEPT ![i] = <<ln, v>>]
 
+\* a run of this job has no failing handler, no limit and non-strict parsing: it cannot fail
 Verdict(r) ==
+  IF "failed" \in DOMAIN r THEN "C08: a run that has no reason to fail failed: " \o r.failed ELSE
   LET si == Shape(r.input)  so == Shape(r.output) IN
   IF r.res = "err" THEN (IF r.output = r.input THEN "ok" ELSE "C08: a rejected argument changed the output")
   ELSE IF r.api = "text" THEN
